@@ -3,7 +3,8 @@ import AdfObdd.PathsDepth
 /-! # path counts in 64-bit arithmetic (C13, review round 2, row 2)
 
 `Bdd::paths` / the path components of `modelcount_naive` add `usize` numbers (release build:
-wrapping). `pathsW` is `pathsF` with every `+` wrapped to 64 bits. Whenever the TOTAL number of
+wrapping; ASSUMES a 64-bit target, `usize` = u64; a debug build panics instead of wrapping - also on the MODEL-count
+overflow of the shared `modelcount_naive` at depth ≥ 65, even when the path total is small). `pathsW` is `pathsF` with every `+` wrapped to 64 bits. Whenever the TOTAL number of
 root-to-leaf paths of the unfolding fits a word, no intermediate sum wraps (sub-diagrams have
 fewer paths) and the two agree; a diagram of depth ≤ 63 has at most `2^63` paths. -/
 
